@@ -120,6 +120,7 @@ func TestSim(t *testing.T) {
 		n, _ := strconv.Atoi(d)
 		deadline = time.Now().Add(time.Duration(n) * time.Second)
 	}
+	nviol := 0
 	for _, seed := range parseSeeds(os.Getenv("SIM_SEEDS")) {
 		if !deadline.IsZero() && time.Now().After(deadline) {
 			break
@@ -142,7 +143,8 @@ func TestSim(t *testing.T) {
 			rep.Summary = s.Summary()
 			min := s
 			nrep := 0
-			if os.Getenv("SIM_NOMIN") != "1" {
+			nviol++
+			if os.Getenv("SIM_NOMIN") != "1" && nviol <= 3 { // minimise the first few violations of a worker only
 				min, nrep = Minimise(t, s, rep.Violation.Class, pd.chk, 300)
 			}
 			mrep := runOne(t, prop, min, true)
